@@ -969,3 +969,219 @@ theorem step_sim (tbl : ClassTable) (hf : tbl.Faithful) (env : Env) (si : Impl.S
     simp only [Impl.step, Spec.step]
     exact ⟨⟨hs.coh, hs.vars.push hs.cur, hs.cur⟩, rfl, Graph.Le.refl _, ArrExt.refl _,
       fun a ha => by cases ha⟩
+
+theorem init_sim (env : Env) : Sim env Impl.init {} := by
+  refine ⟨fun x hx => (by cases hx), ⟨rfl, fun i n e h1 _ => (by simp [Impl.init] at h1)⟩, ?_⟩
+  simp only [Rep, Impl.init]
+  exact ⟨.base, 0, rfl, rfl⟩
+
+/-- Everything a whole run guarantees. -/
+structure RunOk (tbl : ClassTable) (env : Env) (si : Impl.State) (ss : Spec.State) (ops : List Op) :
+    Prop where
+  sim : Sim env (Impl.run tbl env si ops).1 (Spec.run env ss ops).1
+  obs : (Impl.run tbl env si ops).2.map (·.obs) = (Spec.run env ss ops).2
+  gle : si.h.g.Le (Impl.run tbl env si ops).1.h.g
+  ext : ArrExt si.h (Impl.run tbl env si ops).1.h
+  arr : ∀ o ∈ (Impl.run tbl env si ops).2, ∀ a, o.arr = some a →
+    ∃ m, (Impl.run tbl env si ops).1.h.arrays[a]? = some m ∧ o.obs = .mask (.ok m)
+
+theorem run_sim (tbl : ClassTable) (hf : tbl.Faithful) (env : Env) :
+    ∀ (ops : List Op) (si : Impl.State) (ss : Spec.State), Sim env si ss → RunOk tbl env si ss ops
+  | [], si, ss, hs => ⟨hs, rfl, Graph.Le.refl _, ArrExt.refl _, fun o ho => by cases ho⟩
+  | op :: ops, si, ss, hs => by
+    have h1 := step_sim tbl hf env si ss hs op
+    have h2 := run_sim tbl hf env ops _ _ h1.sim
+    refine ⟨h2.sim, ?_, h1.gle.trans h2.gle, h1.ext.trans h2.ext, ?_⟩
+    · simp only [Impl.run, Spec.run, List.map_cons, h1.obs, h2.obs]
+    · intro o ho a ha
+      simp only [Impl.run, List.mem_cons] at ho
+      rcases ho with rfl | ho
+      · obtain ⟨m, hm, hobs⟩ := h1.arr a ha
+        exact ⟨m, h2.ext.get hm, hobs⟩
+      · exact h2.arr o ho a ha
+
+/-! ## Spec-level facts used by the corollaries -/
+
+theorem Spec.step_vars_prefix (env : Env) (s : Spec.State) (op : Op) :
+    ∃ ext, (Spec.step env s op).1.vars = s.vars ++ ext := by
+  cases op with
+  | leaf k c => exact ⟨_, rfl⟩
+  | bin op a b =>
+    simp only [Spec.step]
+    cases s.vars[a]? <;> cases s.vars[b]? <;> first | exact ⟨_, rfl⟩ | exact ⟨[], by simp⟩
+  | inv a =>
+    simp only [Spec.step]
+    cases s.vars[a]? <;> first | exact ⟨_, rfl⟩ | exact ⟨[], by simp⟩
+  | multiOr as =>
+    simp only [Spec.step]
+    cases lookupAll s.vars as with
+    | none => exact ⟨[], by simp⟩
+    | some xs => cases xs <;> first | exact ⟨_, rfl⟩ | exact ⟨[], by simp⟩
+  | copy a =>
+    simp only [Spec.step]
+    cases s.vars[a]? <;> first | exact ⟨_, rfl⟩ | exact ⟨[], by simp⟩
+  | eval a d v f =>
+    simp only [Spec.step]
+    cases s.vars[a]? <;> exact ⟨[], by simp⟩
+  | edit m a =>
+    simp only [Spec.step]
+    cases s.vars[a]? <;> exact ⟨[], by simp⟩
+  | evalCur d v => exact ⟨[], by simp [Spec.step]⟩
+  | useCur => exact ⟨_, rfl⟩
+
+theorem Spec.run_vars_prefix (env : Env) :
+    ∀ (ops : List Op) (s : Spec.State), ∃ ext, (Spec.run env s ops).1.vars = s.vars ++ ext
+  | [], s => ⟨[], by simp [Spec.run]⟩
+  | op :: ops, s => by
+    obtain ⟨e1, h1⟩ := Spec.step_vars_prefix env s op
+    obtain ⟨e2, h2⟩ := Spec.run_vars_prefix env ops (Spec.step env s op).1
+    exact ⟨e1 ++ e2, by simp only [Spec.run]; rw [h2, h1, List.append_assoc]⟩
+
+theorem Spec.run_var_stable (env : Env) (ops : List Op) (s : Spec.State) {a : Nat} {x : Expr}
+    (h : s.vars[a]? = some x) : (Spec.run env s ops).1.vars[a]? = some x := by
+  obtain ⟨ext, he⟩ := Spec.run_vars_prefix env ops s
+  rw [he]; exact getElem?_append_some h
+
+def Op.isEval : Op → Bool
+  | .eval _ _ _ _ => true
+  | .evalCur _ _ => true
+  | _ => false
+
+theorem Spec.step_eval_state (env : Env) (s : Spec.State) (op : Op) (h : op.isEval = true) :
+    (Spec.step env s op).1 = s := by
+  cases op with
+  | eval a d v f => simp only [Spec.step]; cases s.vars[a]? <;> rfl
+  | evalCur d v => rfl
+  | _ => simp [Op.isEval] at h
+
+/-- The Spec state after a program depends only on its non-evaluating ops. -/
+theorem Spec.run_state_filter (env : Env) :
+    ∀ (ops : List Op) (s : Spec.State),
+      (Spec.run env s ops).1 = (Spec.run env s (ops.filter (fun o => !o.isEval))).1
+  | [], _ => rfl
+  | op :: ops, s => by
+    cases h : op.isEval with
+    | true =>
+      simp only [List.filter, h, Bool.not_true, Spec.run]
+      rw [Spec.step_eval_state env s op h]
+      exact Spec.run_state_filter env ops s
+    | false =>
+      simp only [List.filter, h, Bool.not_false, Spec.run]
+      exact Spec.run_state_filter env ops _
+
+/-! ## Shapes -/
+
+theorem Mask.binop_shape {op : BinOp} {a b m : Mask} (h : Mask.binop op a b = .ok m) :
+    m.shape = a.shape ∧ a.shape = b.shape ∧ m.bits = List.zipWith op.fn a.bits b.bits := by
+  simp only [Mask.binop] at h
+  split at h
+  · cases h; exact ⟨rfl, ‹_›, rfl⟩
+  · cases h
+
+mutual
+theorem denote_shaped {env : Env} {d : DataId} {v : View} {S : List Nat} {N : Nat}
+    (hl : ∀ c m, env.leaf c d v = .ok m → m.shape = S ∧ m.bits.length = N) :
+    ∀ (e : Expr) (m : Mask), e.denote env d v = .ok m → m.shape = S ∧ m.bits.length = N
+  | .leaf c, m, h => by simp only [Expr.denote] at h; exact hl c m h
+  | .bin op a b, m, h => by
+    simp only [Expr.denote] at h
+    cases ha : a.denote env d v with
+    | error _ => rw [ha] at h; cases h
+    | ok x =>
+      rw [ha] at h
+      cases hb : b.denote env d v with
+      | error _ => rw [hb] at h; cases h
+      | ok y =>
+        rw [hb] at h
+        obtain ⟨h1, _, h3⟩ := Mask.binop_shape h
+        have hx := denote_shaped hl a x ha
+        have hy := denote_shaped hl b y hb
+        refine ⟨by rw [h1]; exact hx.1, ?_⟩
+        rw [h3, List.length_zipWith, hx.2, hy.2, Nat.min_self]
+  | .inv a, m, h => by
+    simp only [Expr.denote] at h
+    cases ha : a.denote env d v with
+    | error _ => rw [ha] at h; cases h
+    | ok x =>
+      rw [ha] at h
+      cases h
+      have hx := denote_shaped hl a x ha
+      exact ⟨hx.1, by simp only [Mask.not, List.length_map]; exact hx.2⟩
+  | .multiOr es, m, h => by
+    simp only [Expr.denote] at h
+    cases es with
+    | nil => simp only [denoteOr] at h; cases h
+    | cons e es =>
+      simp only [denoteOr] at h
+      cases he : e.denote env d v with
+      | error _ => rw [he] at h; cases h
+      | ok x =>
+        rw [he] at h
+        exact orFold_shaped hl es x m (denote_shaped hl e x he) h
+theorem orFold_shaped {env : Env} {d : DataId} {v : View} {S : List Nat} {N : Nat}
+    (hl : ∀ c m, env.leaf c d v = .ok m → m.shape = S ∧ m.bits.length = N) :
+    ∀ (es : List Expr) (acc m : Mask), (acc.shape = S ∧ acc.bits.length = N) →
+      orFold env d v acc es = .ok m → m.shape = S ∧ m.bits.length = N
+  | [], acc, m, hacc, h => by simp only [orFold] at h; cases h; exact hacc
+  | e :: es, acc, m, hacc, h => by
+    simp only [orFold] at h
+    cases he : e.denote env d v with
+    | error _ => rw [he] at h; cases h
+    | ok y =>
+      simp only [he] at h
+      cases hb : Mask.binop .or acc y with
+      | error _ => rw [hb] at h; cases h
+      | ok acc' =>
+        rw [hb] at h
+        obtain ⟨h1, _, h3⟩ := Mask.binop_shape hb
+        have hy := denote_shaped hl e y he
+        refine orFold_shaped hl es acc' m ⟨by rw [h1]; exact hacc.1, ?_⟩ h
+        rw [h3, List.length_zipWith, hacc.2, hy.2, Nat.min_self]
+end
+
+/-- Many-way or = left-nested binary ors, including every error case. -/
+theorem denoteOr_cons_cons (env : Env) (d : DataId) (v : View) (e e' : Expr) (es : List Expr) :
+    denoteOr env d v (e :: e' :: es) = denoteOr env d v (.bin .or e e' :: es) := by
+  simp only [denoteOr, orFold, Expr.denote]
+  cases e.denote env d v with
+  | error _ => rfl
+  | ok x =>
+    cases e'.denote env d v with
+    | error _ => rfl
+    | ok y =>
+      cases Mask.binop .or x y with
+      | error _ => rfl
+      | ok z => rfl
+
+theorem multiOr_foldl (env : Env) (d : DataId) (v : View) :
+    ∀ (es : List Expr) (e : Expr),
+      (Expr.multiOr (e :: es)).denote env d v = (es.foldl (fun acc x => .bin .or acc x) e).denote env d v
+  | [], e => by
+    simp only [Expr.denote, denoteOr, orFold, List.foldl]
+    cases e.denote env d v <;> rfl
+  | e' :: es, e => by
+    have := multiOr_foldl env d v es (.bin .or e e')
+    simp only [Expr.denote, List.foldl] at this ⊢
+    rw [denoteOr_cons_cons]; exact this
+
+/-! ## Concrete witnesses (used by `Props/C01`) -/
+
+/-- Three elementary masks on a 3-element dataset: content 0 = empty `SubsetState()`. -/
+def f7Env : Env :=
+  ⟨fun c _ _ =>
+    if c = 0 then .ok ⟨[3], [false, false, false]⟩
+    else if c = 1 then .ok ⟨[3], [true, true, false]⟩
+    else .ok ⟨[3], [true, false, true]⟩⟩
+
+def v0 : View := ⟨0, true⟩
+
+/-- `st = RoiSubsetStateNd(...)`, `q = (x > 0)`, `c = st & q`, `d.get_mask(c)`. -/
+def f7Prog : List Op := [.leaf .roiNd 1, .leaf .inequality 2, .bin .and 0 1, .eval 2 0 v0 .kw]
+
+/-- A longer program: many-way or over shared operands, repeated / interleaved evaluations in
+different call forms, every edit mode. -/
+def demoProg : List Op :=
+  [.leaf .roi2d 1, .leaf .inequality 2, .multiOr [0, 1], .eval 2 0 v0 .kw, .eval 0 0 v0 .kw,
+   .bin .xor 2 0, .eval 3 0 v0 .pos, .eval 3 0 v0 .pos, .copy 2, .eval 4 0 v0 .kw,
+   .edit .replace 3, .edit .andNot 1, .evalCur 0 v0, .edit .or 0, .evalCur 0 v0, .edit .xor 4,
+   .edit .and 2, .evalCur 0 v0, .useCur, .inv 5, .eval 6 0 v0 .bare]
